@@ -29,7 +29,7 @@ Rebased(i, l, n, N) == Offset(i, n, N) + l
 
 VARIABLE g
 Counts == IF Q THEN {0, 1, 2, 3, 5, 7, 8, 9, 16, 17, 40} ELSE 0..MaxSeries
-Init == g \in [n : Counts, N : 1..MaxShards, q : 1..34, win : {"instant", "range", "late"}]
+Init == g \in [n : Counts, N : 1..MaxShards, q : 1..34, win : {"instant", "range", "late", "long"}]
 Next == UNCHANGED g
 
 Partition == /\ UNION {Shard(i, g.n, g.N) : i \in 0..(g.N - 1)} = 0..(g.n - 1)
@@ -40,12 +40,13 @@ IdBijection == \A i \in 0..(g.N - 1) : \A k \in Shard(i, g.n, g.N) : Rebased(i, 
 Digit(k) == <<"0","1","2","3","4","5","6","7","8","9">>[k + 1]
 Name(k) == IF k < 10 THEN Digit(k) ELSE Digit(k \div 10) \o Digit(k % 10)
 AVal(k) == <<"x", "y", "z">>[(k % 3) + 1]
-Data(n) == [k \in 1..n |-> Series(<< <<"__name__","m">>, <<"a", AVal(k)>>, <<"i", Name(k)>> >>,
-                                  [u \in 1..44 |-> Smp(u - 1, IF (k + u) % 11 = 0 THEN "s" ELSE "f", 100 * k + u)])]
-           \o [k \in 1..(IF n > 3 THEN 3 ELSE n) |-> Series(<< <<"__name__","n">>, <<"a", AVal(k)>> >>, [u \in 1..44 |-> Smp(u - 1, "f", k + 1)])]
+\* (span: 44 ticks of samples; 140 for the long window)
+Data(n, span) == [k \in 1..n |-> Series(<< <<"__name__","m">>, <<"a", AVal(k)>>, <<"i", Name(k)>> >>,
+                                  [u \in 1..span |-> Smp(u - 1, IF (k + u) % 11 = 0 THEN "s" ELSE "f", 100 * k + u)])]
+           \o [k \in 1..(IF n > 3 THEN 3 ELSE n) |-> Series(<< <<"__name__","n">>, <<"a", AVal(k)>> >>, [u \in 1..span |-> Smp(u - 1, "f", k + 1)])]
            \* a metric with NaN samples: which series holds one changes from tick to tick (the first, a middle, the last of a shard)
            \o [k \in 1..n |-> Series(<< <<"__name__","v">>, <<"a", AVal(k)>>, <<"i", Name(k)>> >>,
-                                  [u \in 1..44 |-> Smp(u - 1, IF (k + u) % 4 = 0 THEN "nan" ELSE "f", 7 * k + u)])]
+                                  [u \in 1..span |-> Smp(u - 1, IF (k + u) % 4 = 0 THEN "nan" ELSE "f", 7 * k + u)])]
 M == <<Sel(<<Metric("m")>>)>>
 N2 == <<Sel(<<Metric("n")>>)>>
 V == <<Sel(<<Metric("v")>>)>>
@@ -74,8 +75,12 @@ Basket == <<
   Over(M, LAMBDA c : Agg("avg", TRUE, <<>>, <<c>>)), Over(M, LAMBDA c : Agg("avg", TRUE, <<"a">>, <<c>>)), Over(M, LAMBDA c : Agg("avg", FALSE, <<"i">>, <<c>>)) >>
 
 \* "late": 12 steps from tick 30 on (the long windows are full there)
-ScnOf(x) == Scn("shard", "C11", TickMs, Data(x.n), Basket[x.q], IF x.win = "late" THEN 30 ELSE 2, IF x.win = "instant" THEN 2 ELSE IF x.win = "range" THEN 13 ELSE 41,
+\* "long": 130 steps over 140 ticks of samples (results of up to 40 series with more than 121 points each)
+ScnOf(x) == Scn("shard", "C11", TickMs, Data(x.n, IF x.win = "long" THEN 140 ELSE 44), Basket[x.q], IF x.win = "late" THEN 30 ELSE 2,
+                IF x.win = "instant" THEN 2 ELSE IF x.win = "range" THEN 13 ELSE IF x.win = "long" THEN 131 ELSE 41,
                 IF x.win = "instant" THEN 0 ELSE 1, 2, 0)
 \* one scenario per (n, query, window): N only matters for the model-level laws
-EmitShard == IF g.N = 1 /\ (g.n * 7 + g.q * 3 + (IF g.win = "instant" THEN 0 ELSE IF g.win = "range" THEN 1 ELSE 2)) % Mod = Seed % Mod THEN Emit(ScnOf(g)) ELSE TRUE
+\* (the long window: the two largest series counts under five of the queries - in every residue class)
+LongOK(x) == x.win # "long" \/ (x.n \in {17, 40} /\ x.q \in {1, 3, 5, 11, 13})
+EmitShard == IF g.N = 1 /\ LongOK(g) /\ (g.win = "long" \/ (g.n * 7 + g.q * 3 + (IF g.win = "instant" THEN 0 ELSE IF g.win = "range" THEN 1 ELSE IF g.win = "late" THEN 2 ELSE 3)) % Mod = Seed % Mod) THEN Emit(ScnOf(g)) ELSE TRUE
 =============================================================================
